@@ -97,6 +97,7 @@ def required(tier):
     req["offset_args_checked"] = 2000
     req["array_calls"] = 400
     req["dimensionless_spec_args"] = 500
+    req["unitless_values_for_declared_units"] = 1000
     return req
 
 
@@ -1347,6 +1348,53 @@ def run_dimensionless(W, rec):
                               exc=type(e).__name__, **fields)
 
 
+def run_strict_bare(W, rec):
+    """Unit-less values of every shape for a parameter with declared units: refused with ValueError in
+    strict mode, handed over untouched otherwise (the statement says 'bare numbers'; sequences and arrays
+    of numbers are the same thing to a wrapped numerical function)."""
+    import numpy as np
+    from decimal import Decimal
+    ureg, Q = W.ureg, W.Q
+    values = [("int", 3), ("float", 2.5), ("Fraction", F(7, 2)), ("Decimal", Decimal("1.5")), ("np.float64", np.float64(2.5)),
+              ("list", [1.0, 2.0]), ("tuple", (3.0,)), ("ndarray", np.array([1.0, 2.0])), ("0-d ndarray", np.array(3.0)),
+              ("int ndarray", np.array([1, 2]))]
+    for unit in ("meter", "second", "kilogram * meter / second ** 2"):
+        specobj = ureg.Unit(unit)
+        for strict in (True, False):
+            for pos in ("positional", "keyword", "second-parameter"):
+                got = []
+                if pos == "second-parameter":
+                    w = ureg.wraps(None, (None, specobj), strict=strict)(lambda a, b: got.append(b))
+                else:
+                    w = ureg.wraps(None, (specobj,), strict=strict)(lambda b: got.append(b))
+                for label, v in values:
+                    del got[:]
+                    rec.count("unitless_values_for_declared_units")
+                    rec.case(("strict-bare", unit, strict, pos, label), nontrivial=True)
+                    fields = dict(decorator="wraps", registry=W.nitname, strict=strict, value_kind=label)
+                    try:
+                        if pos == "positional":
+                            w(v)
+                        elif pos == "keyword":
+                            w(b=v)
+                        else:
+                            w(1, v)
+                        raised = None
+                    except ValueError:
+                        raised = "ValueError"
+                    except Exception as e:  # noqa: BLE001
+                        raised = type(e).__name__
+                    if strict:
+                        if raised != "ValueError":
+                            rec.violation("wraps-strict-accepted-bare-number",
+                                          {"unit": unit, "value": srepr(v), "how": pos, "outcome": raised or "accepted"}, **fields)
+                    else:
+                        same = len(got) == 1 and (got[0] is v or (type(got[0]) is type(v) and np.all(np.asarray(got[0]) == np.asarray(v))))
+                        if raised or not same:
+                            rec.violation("wraps-nonstrict-passthrough-changed",
+                                          {"unit": unit, "value": srepr(v), "how": pos, "outcome": raised or srepr(got)}, **fields)
+
+
 def run_arrays(W, rec, n):
     """ndarray magnitudes, each wrapped function called TWICE with the very same argument objects:
     both calls must receive the converted numbers and the caller's quantities must be left alone."""
@@ -1408,6 +1456,7 @@ def run_shard(spec, rec):
     W.derived_dims = sorted(d for d in W.m.dims)
     run_offsets(W, rec)
     run_dimensionless(W, rec)
+    run_strict_bare(W, rec)
     if W.nit is float:
         run_arrays(W, rec, max(40, spec["n"] // 10))
     rng = W.rng
